@@ -368,6 +368,7 @@ pub fn run_case(case: &Case) -> RunOutput {
         cx.log(EvKind::HandleDrop { client: None, actor: a, kind: HKind::Addr, id: u32::MAX });
         drop(addr);
     }
+    cx.exported.borrow_mut().clear();
     let janitor_done = Rc::new(Cell::new(false));
     {
         let jd = Rc::clone(&janitor_done);
@@ -476,7 +477,15 @@ pub fn horizon_of(case: &Case) -> u64 {
     2 * total + 3 * max_timer + 60
 }
 
-fn convert(addr: &AnyAddr, kind: HKind) -> Option<H> {
+/// `alt`: use the `From` conversions (`From<&Addr>` where it exists, else `From<Addr>`) instead of the
+/// `Addr` methods - they are separate code
+fn convert(addr: &AnyAddr, kind: HKind, alt: bool) -> Option<H> {
+    if alt {
+        return match addr {
+            AnyAddr::A0(a) => conv_ref(a, kind).or_else(|| convert(addr, kind, false)),
+            AnyAddr::A1(a) => conv_ref(a, kind).or_else(|| convert(addr, kind, false)),
+        };
+    }
     Some(match kind {
         HKind::Addr => H::Addr(addr.clone()),
         HKind::Sender => H::Sender(on_any!(addr, AnyAddr, a => a.sender::<Cast>())),
@@ -527,7 +536,7 @@ async fn setup(case: &Case, inboxes: &[Inbox]) {
             continue;
         }
         let Some(addr) = with_case(|c| c.primary.borrow().get(g.actor).and_then(|a| a.clone())) else { continue };
-        if let Some(h) = convert(&addr, g.kind) {
+        if let Some(h) = convert(&addr, g.kind, false) {
             inboxes[g.client].borrow_mut().push(new_held(Some(g.client), g.actor, h));
         }
     }
@@ -556,6 +565,15 @@ fn absorb(client: usize, table: &mut Table, inbox: &Inbox) {
         let out: Vec<(ActorId, AnyAddr)> = with_case(|c| std::mem::take(&mut *c.outside.borrow_mut()));
         for (a, addr) in out {
             table.push(Some(new_held(Some(0), a, H::Addr(addr))));
+        }
+        let exp: Vec<(ActorId, crate::probe::Exported)> = with_case(|c| std::mem::take(&mut *c.exported.borrow_mut()));
+        for (a, e) in exp {
+            let h = match e {
+                crate::probe::Exported::WeakAddr(w) => H::WeakAddr(w),
+                crate::probe::Exported::WeakSender(w) => H::WeakSender(w),
+                crate::probe::Exported::WeakCaller(w) => H::WeakCaller(w),
+            };
+            table.push(Some(new_held(Some(0), a, h)));
         }
     }
 }
@@ -970,12 +988,12 @@ async fn exec_op(me: usize, opi: usize, op: &ClientOp, table: &mut Table, all: &
             };
             begin(me, opi, what, Some(held), None);
             let nh = match &held.h {
-                H::Addr(a) => convert(a, kind),
+                H::Addr(a) => convert(a, kind, opi % 2 == 1),
                 H::Owning(o) => {
                     // through `as_addr()`: no temporary strong handle
                     match o {
-                        AnyOwning::A0(o) => conv_ref(o.as_addr(), kind),
-                        AnyOwning::A1(o) => conv_ref(o.as_addr(), kind),
+                        AnyOwning::A0(o) => if opi % 2 == 1 { conv_ref(o.as_addr(), kind) } else { conv_meth(o.as_ref(), kind) },
+                        AnyOwning::A1(o) => if opi % 2 == 1 { conv_ref(o.as_addr(), kind) } else { conv_meth(o.as_ref(), kind) },
                     }
                 }
                 _ => unreachable!(),
@@ -1074,7 +1092,13 @@ async fn exec_op(me: usize, opi: usize, op: &ClientOp, table: &mut Table, all: &
             begin(me, opi, if sub { OpWhat::Subscribe(topic) } else { OpWhat::Unsubscribe(topic) }, Some(held), None);
             let H::Addr(a) = &held.h else { unreachable!() };
             let (r, polls) = if topic == 0 {
-                let ws = on_any!(a, AnyAddr, a => a.weak_sender::<Topic<0>>());
+                // four routes to the same weak sender: they must all identify the same subscriber
+                let ws = on_any!(a, AnyAddr, a => match opi % 4 {
+                    0 => a.weak_sender::<Topic<0>>(),
+                    1 => hannibal::WeakSender::<Topic<0>>::from(a),
+                    2 => a.sender::<Topic<0>>().downgrade(),
+                    _ => hannibal::Sender::<Topic<0>>::from(a).downgrade(),
+                });
                 counted(async move {
                     if sub {
                         Broker::subscribe(ws).await
@@ -1084,7 +1108,13 @@ async fn exec_op(me: usize, opi: usize, op: &ClientOp, table: &mut Table, all: &
                 })
                 .await
             } else {
-                let ws = on_any!(a, AnyAddr, a => a.weak_sender::<Topic<1>>());
+                // four routes to the same weak sender: they must all identify the same subscriber
+                let ws = on_any!(a, AnyAddr, a => match opi % 4 {
+                    0 => a.weak_sender::<Topic<1>>(),
+                    1 => hannibal::WeakSender::<Topic<1>>::from(a),
+                    2 => a.sender::<Topic<1>>().downgrade(),
+                    _ => hannibal::Sender::<Topic<1>>::from(a).downgrade(),
+                });
                 counted(async move {
                     if sub {
                         Broker::subscribe(ws).await
@@ -1146,7 +1176,19 @@ async fn exec_op(me: usize, opi: usize, op: &ClientOp, table: &mut Table, all: &
     }
 }
 
+/// conversions through the `From` impls
 fn conv_ref<const K: u8>(a: &Addr<Probe<K>>, kind: HKind) -> Option<H> {
+    Some(match kind {
+        HKind::Sender => H::Sender(hannibal::Sender::<Cast>::from(a)),
+        HKind::Caller => H::Caller(hannibal::Caller::<Ask>::from(a.clone())),
+        HKind::WeakSender => H::WeakSender(hannibal::WeakSender::<Cast>::from(a)),
+        HKind::WeakCaller => H::WeakCaller(hannibal::WeakCaller::<Ask>::from(a)),
+        _ => return None,
+    })
+}
+
+/// conversions through the `Addr` methods
+fn conv_meth<const K: u8>(a: &Addr<Probe<K>>, kind: HKind) -> Option<H> {
     Some(match kind {
         HKind::Sender => H::Sender(a.sender::<Cast>()),
         HKind::Caller => H::Caller(a.caller::<Ask>()),
